@@ -65,9 +65,38 @@ def _ill_scaled(draw):
 
 
 @st.composite
+def _ctx_chain(draw):
+    """few terms, each redundant only through a chain of 2-4 context terms over auxiliary variables"""
+    pool = ["a", "b"]
+    aux = ["c", "x", "y", "z"][:draw(st.integers(1, 3))]
+    w = draw(gens.witness_s(pool + aux))
+    terms, ctx = [], []
+    v = draw(st.sampled_from(pool))
+    sg = draw(st.sampled_from([1.0, -1.0]))
+    chain = [v] + aux
+    acc = 0.0
+    for p_, q_ in zip(chain, chain[1:]):
+        sl = float(draw(st.sampled_from([0, 1])))
+        ctx.append([{p_: sg, q_: -sg}, sg * (w[p_] - w[q_]) + sl])
+        acc += ctx[-1][1]
+    last = chain[-1]
+    sl = float(draw(st.sampled_from([0, 1, 2])))
+    ctx.append([{last: sg}, sg * w[last] + sl])
+    acc += ctx[-1][1]
+    terms.append([{v: sg}, acc + draw(st.sampled_from([1.0, 2.0, 0.5]))])       # implied with margin through the whole chain
+    if draw(st.booleans()):
+        terms.append(draw(gens.term_s(pool, w)))
+    ctx = list(draw(st.permutations(ctx)))
+    terms = list(draw(st.permutations(terms)))
+    return {"kind": "tl", "terms": terms, "ctx": ctx, "planted": ["ctx-chain"], "numclass": "small"}
+
+
+@st.composite
 def _tl_case(draw):
     if draw(st.integers(0, 7)) == 0:
         return draw(_ill_scaled())
+    if draw(st.integers(0, 9)) == 0:
+        return draw(_ctx_chain())
     nv = draw(st.integers(1, 5))
     pool = P[:nv]
     numclass = draw(st.sampled_from(["small", "small", "small", "decimal", "wide"]))
